@@ -291,6 +291,7 @@ def size_threshold(test):
 
 class Interp:
     arms = {}       # id(If node) -> [node, then-arm reached, else-arm reached, function]
+    fn_calls = {}   # 'file:qualname' -> number of abstract interpretations of that repository function in this run
     strides = {}    # id(range(...) call with a step) -> [node, largest step, most blocks ever produced, function]
 
     MAX_DEPTH = 40
@@ -1284,6 +1285,7 @@ class Interp:
         self.bind_params(fv, frame, args, kwargs, node)
         self.depth += 1
         self.call_stack.append(f'{fv.module.mod.rel()}:{fv.qualname}')
+        Interp.fn_calls[self.call_stack[-1]] = Interp.fn_calls.get(self.call_stack[-1], 0) + 1
         live0 = self.live
         try:
             if isinstance(fv.node, ast.Lambda):
